@@ -341,7 +341,7 @@ theorem hinv_spurious {s t a s'} (hi : HInv s) (h : stepSpurious s t = some (a, 
   · exact hinv_of_sum (t := t) hi ⟨fun u hu => upd_other _ _ _ _ hu, by rw [hpc]; simp, rfl, rfl, rfl, rfl, rfl, rfl, rfl,
       by simp [special], by simp [inS, inP], by simp [inP]⟩ ⟨by simp, by simp⟩ (by rw [hpc]; rfl)
   · exact hinv_of_sum (t := t) hi ⟨fun u hu => upd_other _ _ _ _ hu, by rw [hpc]; simp, rfl, rfl, rfl, rfl, rfl, rfl, rfl,
-      by simp [notSp_pollEntry], by simp only [upd_same, hpc]; unfold pollEntry; split <;> simp_all [inS, inP],
+      by simp [notSp_pollEntry], by simp only [upd_same, hpc]; unfold pollEntry retWith; (repeat' split) <;> simp_all [inS, inP],
       by simp [notP_pollEntry]⟩ ⟨by simp [h_pollEntry], by simp [hb_pollEntry]⟩ (by rw [hpc]; rfl)
 
 theorem callTh_facts (c : Cfg) (s : State) (x x0 : Th) (op : Op)
@@ -370,10 +370,8 @@ theorem hinv_call {c s t a s'} (hi : HInv s) (h : stepCall c s t = some (a, s'))
     · simp only [Option.some.injEq, Prod.mk.injEq] at h
       obtain ⟨-, rfl⟩ := h
       rename_i op rest hpc hprog hok
-      have hf := callTh_facts c s (s.th t)
-        { s.th t with op := op, res := .none, seq0 := s.seq t, blockOn := false, got := none,
-                      hb := (opHandle s op).isSome, h := (opHandle s op).getD 0, rb := opRecv s op } op rfl rfl
-      generalize callTh c s (s.th t) _ op = y at hf ⊢
+      have hf := callTh_facts c s (s.th t) (callX0 s t op) op rfl rfl
+      generalize callTh c s (s.th t) (callX0 s t op) op = y at hf ⊢
       obtain ⟨f1, f2, f3, f3', f4, f4', f5, f6, f7⟩ := hf
       have hk := callOk_handle hok
       have other : ∀ u, u ≠ t → (s.th u).pc ≠ .idle → (s.th u).hb = true → ∀ h, opHandle s op = some h → (s.th u).h ≠ h := by
